@@ -31,6 +31,12 @@ from vlib.oracles import transcription_ref as TR
 MARGIN_MIN = 1e-7
 TOL = 1e-9
 N_CASES = 2000
+# functions whose cases are often skipped (ties on the lattice, non-unique
+# matchings) get proportionally more cases so that >= ~2000 are compared
+MULTIPLIER = {
+    "multipitch.metrics": 1.5,
+    "transcription_velocity.precision_recall_f1_overlap": 2.0,
+}
 
 # name -> precise description (structural predicate on the input) of every class
 # of input on which the LIBRARY, not the oracle, departs from the documented
@@ -278,11 +284,16 @@ def g_resample_melody(rng):
     if rng.random() < 0.5:
         f = MEL.hz2cents(f)[0]
     v = voicing_values(rng, n)
+    if rng.random() < 0.1:
+        times = times + rng.choice([1000.0, 4096.0, 29000.0])  # late in a long recording
     u = rng.random()
     if u < 0.15:
         new = times.copy()
-    elif u < 0.25:
+    elif u < 0.2:
         new = times + rng.choice([0.0, 1e-9, 1e-12])
+    elif u < 0.25:
+        new = times.copy()  # numerically close but not identical time bases
+        new[1:] += rng.choice([1e-9, 1e-7, 3e-6])
     else:
         k = rng.choice([0, 1, 2, 4, 9, 15])
         start = int(np.ceil(times[0] * 64)) + rng.choice([0, 0, 1, 2])
@@ -319,6 +330,12 @@ def g_to_cent_voicing(rng, allow_empty=True):
                          else rng.choice([0.01, 0.02, 0.005, 0.0058, 0.03]))
     if rng.random() < 0.2:
         kwargs["base_frequency"] = rng.choice([10.0, 55.0, 440.0])
+        if kwargs["base_frequency"] == 440.0 and rng.random() < 0.5:
+            # a voiced frame exactly at the base frequency (0 cents)
+            if len(rf):
+                rf[rng.randrange(len(rf))] = 440.0
+            if len(ef):
+                ef[rng.randrange(len(ef))] = rng.choice([440.0, -440.0])
     return (rt, rf, et, ef), kwargs
 
 
@@ -647,6 +664,44 @@ def build_table():
     ]
 
 
+def internal_checks(n=3000, seed=7):
+    """Consistency of the oracles' own matching machinery on random small
+    bipartite graphs: Kuhn size (both modules) == brute-force maximum; the
+    subset DP's size / number of maximum matchings == brute force; the
+    edge-removal uniqueness test == (number of maximum matchings == 1)."""
+    rng = random.Random(seed)
+    bad = 0
+    for _ in range(n):
+        nl, nr = rng.randint(0, 6), rng.randint(0, 6)
+        p = rng.choice([0.15, 0.3, 0.6])
+        adj = [[j for j in range(nr) if rng.random() < p] for _ in range(nl)]
+        sizes = Counter()
+
+        def rec(i, used, k):
+            if i == nl:
+                sizes[k] += 1
+                return
+            rec(i + 1, used, k)
+            for j in adj[i]:
+                if j not in used:
+                    rec(i + 1, used | {j}, k + 1)
+
+        rec(0, frozenset(), 0)
+        best = max(sizes)
+        n_best = sizes[best]
+        ml = TR._max_matching(adj, nr)
+        k1 = sum(1 for v in ml if v >= 0)
+        k2 = MP._max_matching_size(adj, nr)
+        valid = all(v < 0 or v in adj[u] for u, v in enumerate(ml)) and \
+            len({v for v in ml if v >= 0}) == k1
+        sz, cnt, _, _ = TR._all_maximum_matchings(adj, nr, lambda i, j: 0)
+        uniq = TR._is_unique(adj, nr, ml)
+        if not (k1 == k2 == sz == best and cnt == n_best and valid and uniq == (n_best == 1)):
+            bad += 1
+            print("INTERNAL CHECK FAILED", adj, nr, k1, k2, sz, best, cnt, n_best, uniq)
+    return bad
+
+
 def _short(x, limit=400):
     with np.printoptions(precision=17, threshold=50, linewidth=10000):
         s = repr(x)
@@ -656,7 +711,10 @@ def _short(x, limit=400):
 def run(n_cases=N_CASES, seed=20261003, verbose=True):
     t0 = time.time()
     table = build_table()
-    unexplained_total = 0
+    unexplained_total = internal_checks()
+    if verbose:
+        print("internal matching checks: %s" % ("ok" if unexplained_total == 0 else
+                                                 "%d FAILED" % unexplained_total))
     classes = defaultdict(list)      # (function, class) -> examples
     class_counts = Counter()
     lib_mutations = Counter()
@@ -664,7 +722,7 @@ def run(n_cases=N_CASES, seed=20261003, verbose=True):
     for name, lib_fn, orc_fn, gen, cmp_fn in table:
         rng = random.Random("%s/%d" % (name, seed))
         st = Counter()
-        for _ in range(n_cases):
+        for _ in range(int(n_cases * MULTIPLIER.get(name, 1))):
             args, kwargs = gen(rng)
             st["cases"] += 1
             a_lib, k_lib = snapshot(args), snapshot(kwargs)
